@@ -58,6 +58,9 @@ type poolFont struct {
 	Scripts []string // textgen alphabets worth trying with this font
 	Runes   []rune   // sorted sample of mapped runes
 	GIDs    []uint32 // glyphs of Runes (sorted, deduplicated) plus 0
+	// Features are the distinct feature tags of the font's GSUB and GPOS, those selecting among
+	// alternates (aalt, salt, ssXX, cvXX, the "test" feature of the aots fonts ...) first.
+	Features []string
 }
 
 const (
@@ -77,6 +80,11 @@ const (
 	fDejaVu     = "opentype/common/DejaVuSans.ttf"
 	fRaleway    = "opentype/common/Raleway-v4020-Regular.otf"
 	fMplus      = "opentype/common/mplus-1p-regular.ttf"
+
+	// AlternateSubst lookups behind the feature "test" (values 1, 2, 3 select different glyphs)
+	fAlt1 = "harfbuzz/harfbuzz_reference/aots/fonts/gsub3_1_lookupflag_f1.otf"
+	fAlt2 = "harfbuzz/harfbuzz_reference/aots/fonts/gsub3_1_simple_f1.otf"
+	fAlt3 = "harfbuzz/harfbuzz_reference/aots/fonts/gsub3_1_multiple_f1.otf"
 
 	fKacst = "opentype/toys/KacstQurn.ttf"
 	fSbix1 = "opentype/toys/Sbix1.ttf"
@@ -103,6 +111,7 @@ var (
 	varPool    = []string{fCommissioner, fRvrn, fAdobeVF, fEstedad, fMada, fGPOSFour, fSourceSansVF, fCFF2VF, fHBTestVF}
 	staticPool = []string{fAmiri, fDevanagari, fRoboto, fDejaVu, fRaleway, fMplus}
 	bitmapPool = []string{fKacst, fSbix1, fCBLC1}
+	altPool    = []string{fAlt1, fAlt2, fAlt3}
 )
 
 var (
@@ -149,6 +158,28 @@ func loadFont(ref fontRef) (*poolFont, error) {
 		}
 	}
 	sort.Slice(pf.GIDs, func(i, j int) bool { return pf.GIDs[i] < pf.GIDs[j] })
+	seenTag := map[string]bool{}
+	var alternates, others []string
+	for _, l := range []font.Layout{pf.Font.GSUB.Layout, pf.Font.GPOS.Layout} {
+		for _, f := range l.Features {
+			tg := f.Tag.String()
+			if seenTag[tg] {
+				continue
+			}
+			seenTag[tg] = true
+			if tg == "aalt" || tg == "salt" || tg == "test" || tg == "swsh" || tg == "nalt" || strings.HasPrefix(tg, "ss") || strings.HasPrefix(tg, "cv") {
+				alternates = append(alternates, tg)
+			} else {
+				others = append(others, tg)
+			}
+		}
+	}
+	sort.Strings(alternates)
+	sort.Strings(others)
+	pf.Features = append(alternates, others...)
+	if len(pf.Features) > 24 {
+		pf.Features = pf.Features[:24]
+	}
 	pool[ref.key()] = pf
 	return pf, nil
 }
@@ -546,3 +577,74 @@ func weighted(actions map[string]func(*rapid.T), name string, weight int, f func
 		actions[fmt.Sprintf("%s_%d", name, i)] = f
 	}
 }
+
+// ---------------------------------------------------------------------------------------------
+// long histories: bursts
+
+// burstSizes are the repetition counts of the "burst" operations: small ones and the
+// neighbourhoods of 2^8, 2*2^8, 2^10 and 2^16, where a generation / use counter kept in a small
+// integer wraps around (a counter that skips 0 has period 2^k-1, hence the -1 values).
+var (
+	burstSmall = []int{1, 2, 3, 4, 5, 6, 7, 8, 9, 10, 11, 12, 13, 14, 15, 16, 17, 18, 19, 20}
+	burstByte  = []int{254, 255, 256, 257, 510, 511, 512}
+	burstKilo  = []int{1023, 1024, 1025}
+	burstWord  = []int{65535, 65536, 65537}
+)
+
+// burstAll lists every size (the enumerators walk it).
+func burstAll() []int {
+	var out []int
+	out = append(out, burstSmall...)
+	out = append(out, burstByte...)
+	out = append(out, burstKilo...)
+	return append(out, burstWord...)
+}
+
+// drawBurstN draws a repetition count; cheap tells whether 2^16 repetitions of the operation are
+// affordable (then drawn rarely in the quick tier, more often in the thorough tier).
+func drawBurstN(t *rapid.T, cheap bool) int {
+	k := rapid.IntRange(0, 99).Draw(t, "burstClass")
+	word := 1
+	if ev.Thorough() {
+		word = 6
+	}
+	switch {
+	case cheap && k < word:
+		return rapid.SampledFrom(burstWord).Draw(t, "burstN")
+	case k < 30:
+		return rapid.SampledFrom(burstSmall).Draw(t, "burstN")
+	case k < 85:
+		return rapid.SampledFrom(burstByte).Draw(t, "burstN")
+	default:
+		return rapid.SampledFrom(burstKilo).Draw(t, "burstN")
+	}
+}
+
+func burstLabel(n int) string {
+	switch {
+	case n >= 65535:
+		return "burst_2^16"
+	case n >= 1023:
+		return "burst_2^10"
+	case n >= 254:
+		return "burst_2^8"
+	}
+	return "burst_small"
+}
+
+// ---------------------------------------------------------------------------------------------
+// feature lists
+
+// drawFeatureTag prefers the features the font really has.
+func drawFeatureTag(t *rapid.T, pf *poolFont) string {
+	if len(pf.Features) > 0 && rapid.IntRange(0, 9).Draw(t, "ownFeature") < 7 {
+		// the first entries are the alternate-selecting features
+		if n := len(pf.Features); n > 4 && rapid.Bool().Draw(t, "firstFeatures") {
+			return pf.Features[rapid.IntRange(0, 3).Draw(t, "featureIdx")]
+		}
+		return rapid.SampledFrom(pf.Features).Draw(t, "feature")
+	}
+	return rapid.SampledFrom(shaperFeatures).Draw(t, "feature")
+}
+
+var featureValues = []uint32{0, 1, 1, 2, 3}
